@@ -171,6 +171,8 @@ var errnos = map[string]syscall.Errno{
 	"ENOSPC": syscall.ENOSPC, "EIO": syscall.EIO, "EACCES": syscall.EACCES, "EMFILE": syscall.EMFILE,
 	"EISDIR": syscall.EISDIR, "ENOENT": syscall.ENOENT, "EROFS": syscall.EROFS, "EDQUOT": syscall.EDQUOT,
 	"EPERM": syscall.EPERM, "EINTR": syscall.EINTR, "EBUSY": syscall.EBUSY, "ENOTDIR": syscall.ENOTDIR,
+	"ENFILE": syscall.ENFILE, "ETXTBSY": syscall.ETXTBSY, "ELOOP": syscall.ELOOP, "ENAMETOOLONG": syscall.ENAMETOOLONG,
+	"EFBIG": syscall.EFBIG, "EAGAIN": syscall.EAGAIN, "EXDEV": syscall.EXDEV, "ENOTEMPTY": syscall.ENOTEMPTY, "ESTALE": syscall.ESTALE,
 }
 
 type genAction int
